@@ -248,7 +248,7 @@ def _judge_fill(case):
     return {"nontrivial": _nontrivial(edges, case["fills"]), "classes": list(set(classes))}
 
 
-def _watched(judge):
+def _watched(judge):  # noqa
     """a bin search that does not terminate is a violation, not a hang: at most 400 executed lines of
     hist_functions per call on average (12 edges need a few dozen)"""
     def wrapped(case):
@@ -391,7 +391,7 @@ CHECKS = [
           rule="1-dim edges up to 12, 1-8 coordinates: get_bin_on_value_1d == bisect_right-1."),
     Check("element", judge_element, strategy=lambda tier: element_case(),
           quick=1200, thorough=60000,
-          rule="Histogram element with bare and (data, context) values, weight 1, against a bisect histogram."),
+          rule="Histogram element with bare and (data, context) values, weight 1, against a bisect histogram; in a third of the cases reset() and a second round of values judged as a histogram of its own. All C06 judges run under a step budget for hist_functions (a search that does not return is a violation)."),
     Check("invalid_edges", judge_invalid, strategy=strat_invalid, quick=800, thorough=20000,
           rule="non-increasing / too short / empty edges must raise LenaValueError, valid ones must be accepted."),
 ]
